@@ -283,8 +283,19 @@ def _ref_sm(kind):
             return {'apdu': a}       # right parity, other counter: the MAC does not cover the counter; nothing is claimed
         return dict({'ret': 0, 'apdu': a}, **_flat(o))
     return ref
-reg(Composite('btok.SMCmd', _impl_sm('cmd'), _ref_sm('cmd'), group='tok', secrets=('key',)))
-reg(Composite('btok.SMResp', _impl_sm('resp'), _ref_sm('resp'), group='tok', secrets=('key',)))
+reg(Composite('btok.SMCmd', _impl_sm('cmd'), _ref_sm('cmd'), group='tok', secrets=('key',))).faultable = True
+reg(Composite('btok.SMResp', _impl_sm('resp'), _ref_sm('resp'), group='tok', secrets=('key',))).faultable = True
+
+def _impl_sm_open(kind):
+    def impl(lib, c, A, fill):
+        """removal of the protection from given octets into a struct sized for the genuine object (C09: nothing is released on failure)"""
+        st = sm_state(lib, A, c['key'], c['ctr_r'], fill)
+        dst = A.buf((CMD_SIZE if kind == 'cmd' else RESP_SIZE) + c['dlen'], fill); sz = A.buf(8, fill)
+        r = lib.err('btokSMCmdUnwrap' if kind == 'cmd' else 'btokSMRespUnwrap', dst, sz, A.buf(c['apdu']), len(c['apdu']), st)
+        return {'ret': r, 'out': dst.get()}
+    return impl
+reg(Composite('btok.SMCmdOpen', _impl_sm_open('cmd'), None, group='tok', secrets=('key',)))
+reg(Composite('btok.SMRespOpen', _impl_sm_open('resp'), None, group='tok', secrets=('key',)))
 
 # ------------------------------------------------------------------ bpki containers
 SALT = bytes.fromhex('B194BAC80A08F53B')
@@ -321,9 +332,22 @@ def _wrap_size(kind):
         ok = n in ((24, 32, 48, 64) if kind == 'privkey' else (17, 25, 33))
         return epki_len(len((T.pki_privkey if kind == 'privkey' else T.pki_share)(bytes(n))), c['iter']) if ok else 16
     return size
+def _single(name, args, ref, always=None, **kw):
+    """one high-level call described like a cat.Fn; outputs are reported only on success (after an error their content is not
+    specified, and the sanitised replay compares two runs with differently pre-filled buffers).  `always`: name of a twin entry
+    that reports the outputs in every case (used by the no-release-on-failure check)."""
+    desc = Fn(name, args, None)
+    def impl(lib, c, A, fill):
+        r = cat.run(lib, desc, c, fill, A=A)
+        return r if r['ret'] == 0 else {'ret': r['ret']}
+    e = reg(Composite(name, impl, ref, **kw)); e.faultable = True
+    if always:
+        reg(Composite(always, lambda lib, c, A, fill: cat.run(lib, desc, c, fill, A=A), None, **kw))
+    return e
+
 for _kind, _name in (('privkey', 'bpkiPrivkeyWrap'), ('share', 'bpkiShareWrap')):
-    reg(Fn(_name, [('out', 'epki', _wrap_size(_kind)), ('outsz', 'epki_len'), ('in', 'key'), ('len', 'key'), ('in', 'pwd'), ('len', 'pwd'),
-                   ('in', 'salt'), ('val', 'iter')], _ref_pwrap(_kind), group='tok', secrets=('key', 'pwd')))
+    _single(_name, [('out', 'epki', _wrap_size(_kind)), ('outsz', 'epki_len'), ('in', 'key'), ('len', 'key'), ('in', 'pwd'), ('len', 'pwd'),
+                    ('in', 'salt'), ('val', 'iter')], _ref_pwrap(_kind), group='tok', secrets=('key', 'pwd'))
 
 def _ref_punwrap(kind):
     def ref(c):
@@ -338,21 +362,21 @@ def _ref_punwrap(kind):
         return {'ret': 0, 'key': key, 'key_len': len(key)}
     return ref
 for _kind, _name in (('privkey', 'bpkiPrivkeyUnwrap'), ('share', 'bpkiShareUnwrap')):
-    reg(Fn(_name, [('out', 'key', lambda c: c['klen']), ('outsz', 'key_len'), ('in', 'epki'), ('len', 'epki'), ('in', 'pwd'), ('len', 'pwd')],
-           _ref_punwrap(_kind), group='tok', secrets=('pwd',)))
+    _single(_name, [('out', 'key', lambda c: c['klen']), ('outsz', 'key_len'), ('in', 'epki'), ('len', 'epki'), ('in', 'pwd'), ('len', 'pwd')],
+            _ref_punwrap(_kind), always=_name.replace('bpki', 'bpki.').replace('Unwrap', 'Open'), group='tok', secrets=('pwd',))
 
 def _ref_csr_rewrap(c):
     if len(c['privkey']) != 32:
         return {'ret': E['NOT_IMPLEMENTED']}
     r = T.csr_rewrap(c['csr'], c['privkey'])
     return {'ret': E['BAD_FORMAT']} if r is None else {'ret': 0, 'csr': r}
-reg(Fn('bpkiCSRRewrap', [('io', 'csr'), ('len', 'csr'), ('in', 'privkey'), ('len', 'privkey')], _ref_csr_rewrap, group='tok', secrets=('privkey',)))
+_single('bpkiCSRRewrap', [('io', 'csr'), ('len', 'csr'), ('in', 'privkey'), ('len', 'privkey')], _ref_csr_rewrap, group='tok', secrets=('privkey',))
 def _ref_csr_unwrap(c):
     if T.csr_parse(c['csr']) is None:
         return {'ret': E['BAD_FORMAT']}
     pk = T.csr_verify(c['csr'])
     return {'ret': NZ} if pk is None else {'ret': 0, 'pubkey': pk, 'pubkey_len': 64}
-reg(Fn('bpkiCSRUnwrap', [('out', 'pubkey', 64), ('outsz', 'pubkey_len'), ('in', 'csr'), ('len', 'csr')], _ref_csr_unwrap, group='tok'))
+_single('bpkiCSRUnwrap', [('out', 'pubkey', 64), ('outsz', 'pubkey_len'), ('in', 'csr'), ('len', 'csr')], _ref_csr_unwrap, group='tok')
 
 # ------------------------------------------------------------------ alphabets shared with C17
 KLENS = (24, 32, 48, 64)
@@ -385,18 +409,22 @@ DATE_CLASSES = {      # name -> (from, until, valid?)
     'from_gt_until': (date(2030, 1, 2), date(2030, 1, 1), False),
 }
 HATS = {'none': (bytes(5), bytes(2)), 'eid': (bytes.fromhex('0000000001'), bytes(2)), 'esign': (bytes(5), bytes.fromhex('8000')),
-        'both': (bytes.fromhex('EEEEEEEEEE'), bytes.fromhex('7777'))}
+        'both': (bytes.fromhex('EEEEEEEEEE'), bytes.fromhex('7777')), 'eid_hi': (bytes.fromhex('8000000000'), bytes(2)),
+        'esign_lo': (bytes(5), bytes.fromhex('0001'))}
 
+# 0, 1, 255, 256, 300 and the lengths at which the protected code changes form: DER length of the 0x87 object 127|128 and 255|256
+# (data 126|127, 254|255), protected Lc 255|256 (data 241|242 without Le, 238|239 with a short Le)
+QUICK_LENS = [0, 1, 126, 127, 238, 239, 241, 242, 254, 255, 256, 300]
 def cmd_menu(tier):
     """commands covering every Lc / Le form: (cla, ins, p1, p2, cdf, rdf_len)"""
-    lens = [0, 1, 255, 256, 300] if tier == 'quick' else list(range(0, 301))
+    lens = QUICK_LENS if tier == 'quick' else list(range(0, 301))
     out = []
     for n in lens:
         for le in ((0, 1, 256, 257, 65536) if tier == 'quick' or n in (0, 1, 2, 239, 240, 241, 242, 243, 244, 245, 254, 255, 256, 257, 300) else (0, 256, 257)):
             out.append((0x00 if n % 2 == 0 else 0x80, 0xA4, 0x04, n & 0xFF, vf.filler('cdf%d' % n, n), le))
     return out
 def resp_menu(tier):
-    lens = [0, 1, 255, 256, 300] if tier == 'quick' else list(range(0, 301))
+    lens = QUICK_LENS if tier == 'quick' else list(range(0, 301))
     return [(0x90 if n % 2 == 0 else 0x6A, n & 0xFF, vf.filler('rdf%d' % n, n)) for n in lens]
 
 SMKEY = bytes.fromhex('B194BAC80A08F53B366D008E584A5DE48504FA9D1BB6C7AC252E72C202FDCE0D')
@@ -492,17 +520,24 @@ def gen_cases(tier):
         cla, ins, p1, p2, cdf, le = cmd
         base = dict(key=SMKEY, cla=cla, ins=ins, p1=p1, p2=p2, cdf=cdf, rdf_len=le)
         out.append(('btok.SMCmd', dict(base, ctr_s=1, ctr_r=1)))
-        if le in (0, 257):
+        if le in (0, 257) and (not q or len(cdf) in (0, 1, 255, 256, 300)):
             out.append(('btok.SMCmd', dict(base, ctr_s=3, ctr_r=3)))
             out.append(('btok.SMCmd', dict(base, ctr_s=2, ctr_r=2)))
             out.append(('btok.SMCmd', dict(base, ctr_s=1, ctr_r=2)))
             out.append(('btok.SMCmd', dict(base, ctr_s=None, ctr_r=None)))
+    # counters beyond one octet: the carry of btokSMCtrInc and the whole counter as the CFB synchro value
+    for n in (255, 257, 511, 65537):
+        out.append(('btok.SMCmd', dict(key=SMKEY, cla=0, ins=0xB0, p1=1, p2=2, cdf=vf.filler('cdfctr', 33), rdf_len=16, ctr_s=n, ctr_r=n)))
+    for n in (256, 258, 65536):
+        out.append(('btok.SMResp', dict(key=SMKEY, sw1=0x90, sw2=0, rdf=vf.filler('rdfctr', 33), ctr_s=n, ctr_r=n)))
     out.append(('btok.SMCmd', dict(key=SMKEY, cla=0x04, ins=1, p1=2, p2=3, cdf=b'abc', rdf_len=0, ctr_s=1, ctr_r=1)))
     out.append(('btok.SMCmd', dict(key=SMKEY, cla=0x00, ins=1, p1=2, p2=3, cdf=b'abc', rdf_len=0, ctr_s=None, ctr_r=1)))
     out.append(('btok.SMCmd', dict(key=SMKEY, cla=0x00, ins=1, p1=2, p2=3, cdf=b'abc', rdf_len=0, ctr_s=1, ctr_r=None)))
     for resp in resp_menu('quick') if q else resp_menu(tier)[::2]:
         base = dict(key=SMKEY, sw1=resp[0], sw2=resp[1], rdf=resp[2])
         out.append(('btok.SMResp', dict(base, ctr_s=2, ctr_r=2)))
+        if q and len(resp[2]) not in (0, 1, 255, 256, 300):
+            continue
         out.append(('btok.SMResp', dict(base, ctr_s=4, ctr_r=4)))
         out.append(('btok.SMResp', dict(base, ctr_s=1, ctr_r=1)))
         out.append(('btok.SMResp', dict(base, ctr_s=2, ctr_r=3)))
@@ -542,4 +577,101 @@ def gen_cases(tier):
         out.append(('bpkiCSRUnwrap', dict(csr=csr[:-1])))
         out.append(('bpkiCSRRewrap', dict(csr=csr, privkey=privkey(48))))
         out.append(('bpkiCSRRewrap', dict(csr=csr[:-1], privkey=d2)))
+    return out
+
+# ------------------------------------------------------------------ hooks for C09 / C15
+def _nonce(case, res, privname):
+    """the deterministic nonce k of the signature inside the produced certificate (bign 6.3.3 with empty t)"""
+    import bign
+    if res.get('ret') or 'cert' not in res:
+        return []
+    r = T.cvc_dec(res['cert'])
+    if r is None:
+        return []
+    d = case[privname]
+    l = T.LEVEL[len(d)]
+    h, oid = T._hash(l, r[1])
+    oid = bign.oid_to_der(oid)
+    k = bign.bign96_gen_k(oid, d, h) if l == 96 else bign.gen_k(l, oid, d, h)
+    return [('signature nonce k', k.to_bytes(len(d), 'little'))]
+cat.CAT['btokCVCWrap'].derived = lambda case, res: _nonce(case, res, 'privkey')
+cat.CAT['btokCVCIss'].derived = lambda case, res: _nonce(case, res, 'privkeya')
+
+def _kdf_wrap(kind):
+    def derived(case, res):
+        if case['iter'] < 10000 or res.get('ret'):
+            return []
+        out = [('PBKDF2 key', T.pbkdf2(case['pwd'], case['iter'], case['salt']))]
+        try:
+            out.append(('PrivateKeyInfo', (T.pki_privkey if kind == 'privkey' else T.pki_share)(case['key'])))
+        except KeyError:
+            pass
+        return out
+    return derived
+def _kdf_unwrap(case, res):
+    r = T.epki_dec(case['epki'])
+    if r is None or r[2] < 1 or r[2] > 10000:
+        return []
+    out = [('PBKDF2 key', T.pbkdf2(case['pwd'], r[2], r[1]))]
+    import belt
+    pki = belt.kwp_unwrap(out[0][1], r[0], None) if len(r[0]) >= 32 else None
+    if pki is not None:
+        out.append(('PrivateKeyInfo', pki))
+    return out
+cat.CAT['bpkiPrivkeyWrap'].derived = _kdf_wrap('privkey')
+cat.CAT['bpkiShareWrap'].derived = _kdf_wrap('share')
+cat.CAT['bpkiPrivkeyUnwrap'].derived = _kdf_unwrap
+cat.CAT['bpkiShareUnwrap'].derived = _kdf_unwrap
+
+def sweep_cases(tier):
+    """arguments outside the documented domains (C09): the reference predicates name the documented error (or 'an error')"""
+    out = []
+    d = privkey(32)
+    c = mk(b'BYCA0000', b'BYCA1000', b'', D_FROM, D_UNTIL)
+    ch = chain((32, 32))
+    for n in (0, 1, 23, 25, 31, 33, 47, 49, 63, 65, 96, 128):
+        k = vf.filler('sweepkey', n)
+        out.append(('btokCVCWrap', dict(c, privkey=k)))
+        out.append(('btokCVCMatch', dict(cert=ch[1][1], privkey=k)))
+        out.append(('btokCVCIss', dict({f: ch[1][2][f] for f in FIELDS}, certa=ch[0][1], privkeya=k)))
+        out.append(('bpkiPrivkeyWrap', dict(key=k, pwd=PWDS[3], salt=SALT, iter=10000)))
+        out.append(('bpkiCSRRewrap', dict(csr=T.CSR_BEE2EVP, privkey=k)))
+    for n in (0, 1, 47, 49, 63, 65, 95, 97, 127, 129):
+        out.append(('btokCVCUnwrap', dict(cert=ch[1][1], mode='key', pubkey=vf.filler('sweeppub', n))))
+    for n in (0, 1, 16, 18, 24, 26, 32, 34):
+        out.append(('bpkiShareWrap', dict(key=b'\x01' + bytes(max(n - 1, 0)) if n else b'', pwd=PWDS[3], salt=SALT, iter=10000)))
+    for it in (0, 1, 9999):
+        out.append(('bpkiPrivkeyWrap', dict(key=d, pwd=PWDS[3], salt=SALT, iter=it)))
+        out.append(('bpkiShareWrap', dict(key=b'\x01' + bytes(16), pwd=PWDS[3], salt=SALT, iter=it)))
+    for n in (0, 1, 2, 3):
+        out.append(('btokCVCLen', dict(der=ch[1][1][:n])))
+    for cla in (0x04, 0x0C, 0x84, 0xFF):
+        out.append(('btok.SMCmd', dict(key=SMKEY, cla=cla, ins=1, p1=2, p2=3, cdf=b'abcd', rdf_len=5, ctr_s=1, ctr_r=1)))
+    for cs, cr in ((0, 0), (2, 2), (1, 0), (1, 2), (3, 4)):
+        out.append(('btok.SMCmd', dict(key=SMKEY, cla=0, ins=1, p1=2, p2=3, cdf=b'abcd', rdf_len=5, ctr_s=cs, ctr_r=cr)))
+    for cs, cr in ((1, 1), (3, 3), (2, 1), (2, 3), (4, 5)):
+        out.append(('btok.SMResp', dict(key=SMKEY, sw1=0x90, sw2=0, rdf=b'abcd', ctr_s=cs, ctr_r=cr)))
+    return out
+
+def auth_cases(tier):
+    """(fname, corrupted case, true plaintext, field, bit): every single-bit corruption of a protected object must be refused
+    and no 8-octet window of the protected plaintext may show up in an output (C09)"""
+    out = []
+    allbits = tier == 'thorough'
+    def bits(v):
+        return range(8 * len(v)) if allbits else [8 * j + (j % 8) for j in range(len(v))]
+    for kind, key in (('privkey', privkey(32)), ('share', b'\x05' + vf.filler('share33', 32))):
+        e = T.epki((T.pki_privkey if kind == 'privkey' else T.pki_share)(key), PWDS[1], SALT, 1)
+        fn = 'bpki.PrivkeyOpen' if kind == 'privkey' else 'bpki.ShareOpen'
+        for b in bits(e):
+            out.append((fn, dict(klen=len(key), epki=_flip(e, b // 8, 1 << (b % 8)), pwd=PWDS[1]), key, 'epki', b))
+        out.append((fn, dict(klen=len(key), epki=e, pwd=PWDS[1] + b'x'), key, 'pwd', 0))
+    keys = T.sm_keys(SMKEY)
+    cdf = vf.filler('authcdf', 40)
+    a = T.sm_cmd_wrap(keys, 1, (0, 0xA4, 4, 4, cdf, 256))
+    for b in bits(a):
+        out.append(('btok.SMCmdOpen', dict(key=SMKEY, ctr_r=1, apdu=_flip(a, b // 8, 1 << (b % 8)), dlen=len(cdf)), cdf, 'apdu', b))
+    a = T.sm_resp_wrap(keys, 2, (0x90, 0, cdf))
+    for b in bits(a):
+        out.append(('btok.SMRespOpen', dict(key=SMKEY, ctr_r=2, apdu=_flip(a, b // 8, 1 << (b % 8)), dlen=len(cdf)), cdf, 'apdu', b))
     return out
